@@ -226,7 +226,7 @@ def run_stability(job, ob):
             solver.policy = old
             W = sym("W", (S,))
             solver._evaluate_policy = lambda policy, starting_values=None: W
-            solver._extract_policy = lambda: new
+            solver._extract_policy = lambda *a, **k: new
             from loguru import logger
             msgs = []
             hid = logger.add(lambda m: msgs.append(str(m)), level="INFO")
